@@ -17,6 +17,7 @@ _LOOP_FULL.update({m: {"shims": ()} for m in ("xdsl.transforms.scf_for_loop_unro
                                               "xdsl.transforms.convert_scf_to_cf", "xdsl.transforms.loop_invariant_code_motion", "xdsl.transforms.control_flow_hoist")})
 
 CHECKS = {
+    "C28": {"module": "vx.checks.c28", "instrument": {}, "maxtasksperchild": 10},
     "C16": {"module": "vx.checks.c16", "instrument": {"full": _LOOP_FULL}, "maxtasksperchild": 4},
     "C13": {"module": "vx.checks.c13", "instrument": {}},
     "C11": {"module": "vx.checks.c11", "instrument": {"full": {"xdsl.dialects.builtin": {"shims": ("math", "struct")}}}, "maxtasksperchild": 4},
